@@ -23,7 +23,14 @@ def run(c):
     if not b:
         return
     n = 200 if c.tier == "quick" else 3000
-    rc, out = c.run([b, "-out", c.build, "-seed", str(c.seed), "-n", str(n)], timeout=2400)
+    seed = c.seed
+    if c.replay:
+        # cases are generated adaptively (sizes chosen from the real counters): a replay re-runs the recorded seed and tier
+        import json
+        rp = json.load(open(c.replay))
+        seed = int(rp.get("seed", seed))
+        n = 200 if rp.get("tier", "quick") == "quick" else 3000
+    rc, out = c.run([b, "-out", c.build, "-seed", str(seed), "-n", str(n)], timeout=2400)
     if rc != 0:
         c.break_("corr", "c16corr harness run failed", out)
         return
